@@ -235,6 +235,9 @@ func (g *docGen) inlineParam(i int) jx.Obj {
 	} else {
 		p["type"] = Pick(rng, []string{"string", "integer", "number", "boolean"})
 	}
+	if Chance(rng, 12) {
+		p["x-go-name"] = "Field" + strconv.Itoa(g.sc.next())
+	}
 	if g.cfg.PatEnum {
 		if Chance(rng, 40) {
 			p["pattern"] = "^q" + strconv.Itoa(g.sc.next())
